@@ -46,4 +46,11 @@ CLAIMS = {
         "note": "Not decided: the round-trip law apply(base, diff(base,cur)) == cur over all JSON pairs (incl. 1/True/1.0 equality) - a value-level law that needs exhaustive or random "
                 "evaluation, a different technique; codec-level properties of zstd.",
     },
+    "C06": {
+        "technique": "static analysis: writer/reader key-table agreement with must-pass over the writer CFG, symbolic evaluation of the sibling canonical-key implementations, reaching-definition shape of stored weights, taint of directory entries vs the discovery filter",
+        "text": "Decides the structural conditions of a faithful round trip: loader keys are written on every writer path; exporter/importer fields agree; load sanitisation reuses the write "
+                "sanitiser and the four canonical edge-key implementations compute the same key; every stored weight is clamped to configured bounds and rounded via _round6 (non-finite->0.0); "
+                "discovery only returns '.json'-filtered names and sidecars end in '.meta'; body and sidecar carry SCHEMA_VERSION on every path.",
+        "note": "Not decided: byte-for-byte fixpoint of write∘load∘write for every representable state (unicode ids, duplicate orientations, rounding idempotence) - value-level, needs execution.",
+    },
 }
